@@ -316,14 +316,32 @@ def r3_exact_factor(ctx):
         except (Unrecognised, NotSymbolic) as ex:
             ctx.unrecognised(MAG, f"Magnitude.{m}", "exact cell", str(ex))
     # power and negation keep exactness, negation keeps the error
+    from ..flowexpr import paths
     fn = ctx.fn(MAG, "Magnitude.__neg__")
-    s = [norm(x) for x in K.body_nodoc(fn)]
-    ctx.check(s == ["return Magnitude(-self.value, self.error)"], MAG, "Magnitude.__neg__", "negation keeps the uncertainty",
-              detail=s)
+    rets = [norm(e.resolved) for q in paths(fn) for e in q.events if e.kind == "return"]
+    ctx.check(rets == ["Magnitude(-self.value, self.error)"], MAG, "Magnitude.__neg__", "negation keeps the uncertainty", detail=rets)
     fn = ctx.fn(MAG, "Magnitude.__pow__")
-    s = norm(fn)
-    ctx.check("if self.error is not None" in s and "error = None" in s, MAG, "Magnitude.__pow__",
-              "power of an exact value is exact")
+    rows, bad, unk = [], [], []
+    for q in paths(fn):
+        exact = None
+        for t in q.tests():
+            k = norm(t.resolved)
+            if k == "self.error is None":
+                exact = t.extra
+            elif k == "self.error is not None":
+                exact = not t.extra
+        ret = next((e.resolved for e in q.events if e.kind == "return"), None)
+        if exact is None or not (isinstance(ret, ast.Call) and dotted_name(ret.func) == "Magnitude" and len(ret.args) == 2):
+            unk.append([norm(t.resolved) for t in q.tests()])
+            continue
+        isnone = isinstance(ret.args[1], ast.Constant) and ret.args[1].value is None
+        rows.append(f"exact={exact}: error={norm(ret.args[1])[:60]}")
+        if exact != isnone:
+            bad.append(rows[-1])
+    if unk or not rows:
+        ctx.unrecognised(MAG, "Magnitude.__pow__", "power of an exact value is exact", f"path not classified by a test of self.error: {unk[:1]}")
+    else:
+        ctx.check(not bad, MAG, "Magnitude.__pow__", "power of an exact value is exact", detail=bad or rows)
 
 
 def r4_first_order(ctx):
